@@ -59,10 +59,11 @@ type cCluster struct {
 	snapI time.Duration
 	skew  []int64 // per node index: offset of the node's clock from the cluster clock (witness lane only)
 
-	mu       sync.Mutex
-	applied  map[string][]applyEv
-	nApply   atomic.Int64
-	inFlight atomic.Int64 // state machine applies and restores begun and not finished (all nodes of this cluster)
+	mu          sync.Mutex
+	applied     map[string][]applyEv
+	nApply      atomic.Int64
+	quiesceInfo string       // what the last successful quiescence observation saw
+	inFlight    atomic.Int64 // state machine applies and restores begun and not finished (all nodes of this cluster)
 
 	lastKey atomic.Value // string: "<db> <key>" of the entry applied most recently (steers the race lane's readers)
 
@@ -126,6 +127,13 @@ func newCluster(ctx *Ctx, withDirs bool, snapT uint64, snapI time.Duration) *cCl
 				case <-rel:
 				case <-time.After(90 * time.Second): // never wedge a node for good
 				}
+			}
+			return
+		}
+		if name == "fsm.apply.undecodable" && len(args) >= 3 {
+			if id, _ := args[0].(string); strings.HasPrefix(id, c.tag+"-") {
+				idx, _ := args[1].(uint64)
+				c.ctx.Violate(Violation{Kind: "undecodable_entry", Lane: "history", What: fmt.Sprintf("node %s could not decode log entry %d: %v", id, idx, args[2]), Key: "c07|undecodable"})
 			}
 			return
 		}
@@ -336,6 +344,20 @@ func (c *cCluster) quiesce() bool {
 			stable = 0
 		}
 		last = sig
+		if stable >= 2 {
+			info := fmt.Sprintf("leader %s last_log_index=%s in_flight=%d applies=%d;", l.id, want, c.inFlight.Load(), c.nApply.Load())
+			for _, n := range c.aliveNodes() {
+				st := c.stats(n)
+				c.mu.Lock()
+				var lastEv uint64
+				if evs := c.applied[n.id]; len(evs) > 0 {
+					lastEv = evs[len(evs)-1].Index
+				}
+				c.mu.Unlock()
+				info += fmt.Sprintf(" %s{state=%s applied_index=%s commit_index=%s last_log_index=%s fsm_pending=%s last_apply_event=#%d}", n.id, st["state"], st["applied_index"], st["commit_index"], st["last_log_index"], st["fsm_pending"], lastEv)
+			}
+			c.quiesceInfo = info
+		}
 		return stable >= 2
 	})
 }
@@ -368,6 +390,28 @@ func (c *cCluster) close() {
 	if c.root != "" {
 		os.RemoveAll(c.root)
 	}
+}
+
+// logAround renders the entries with index from..from+k that the node's state machine applied.
+func (c *cCluster) logAround(id string, from uint64, k int) []string {
+	c.mu.Lock()
+	defer c.mu.Unlock()
+	var out []string
+	for _, e := range c.applied[id] {
+		if e.Index >= from && e.Index < from+uint64(k) {
+			out = append(out, trunc(fmt.Sprintf("#%d db%d type=%s %s", e.Index, e.DB, e.Type, Step{Argv: e.CmdDec}.String()), 160))
+		}
+	}
+	return out
+}
+
+func (c *cCluster) lastIndex(id string) uint64 {
+	c.mu.Lock()
+	defer c.mu.Unlock()
+	if evs := c.applied[id]; len(evs) > 0 {
+		return evs[len(evs)-1].Index
+	}
+	return 0
 }
 
 // logTail renders the last entries the node's state machine applied.
@@ -555,12 +599,81 @@ func (h *c07Run) converge(event string) bool {
 		if d := model.DiffCanon(ld, nd); d != "" {
 			h.violate(Violation{Kind: "divergence", Lane: h.lane,
 				What: fmt.Sprintf("after %s and observed quiescence, node %s differs from the leader %s (want = leader): %s", event, n.id, l.id, d),
-				Case: map[string]interface{}{"script": h.scriptCopy(), "node_log_tail": h.c.logTail(n.id, 12), "leader_log_tail": h.c.logTail(l.id, 12)},
+				Case: map[string]interface{}{"script": h.scriptCopy(), "node_log_tail": h.c.logTail(n.id, 12), "leader_log_tail": h.c.logTail(l.id, 12), "quiescence_observation": h.c.quiesceInfo, "leader_entries_after_the_nodes_last": h.c.logAround(l.id, h.c.lastIndex(n.id), 6)},
 				Key:  "c07|divergence|" + event + "|" + firstDiffKind(d)})
 			h.bad = true
 		}
 	}
 	return !h.bad
+}
+
+// firstUse: a client of the leader selects a database that has never been used and writes its first key
+// there, while a client of every follower selects the same database at the same moment (SELECT creates the
+// database on the node it is sent to; the replicated write creates it there too). The write is acknowledged
+// by the leader, so after quiescence every node must hold it.
+func (h *c07Run) firstUse(i int) bool {
+	l := h.c.leader()
+	if l == nil || h.leaderMoved() {
+		return !h.bad
+	}
+	lc, err := DialHost(l.o.BindAddr, l.o.Port)
+	if err != nil {
+		h.ctx.Inconclusive("C07: cannot connect to the leader")
+		return true
+	}
+	defer lc.Close()
+	var fcs []*Client
+	for _, n := range h.c.aliveNodes() {
+		if n == l {
+			continue
+		}
+		if fc, err := DialHost(n.o.BindAddr, n.o.Port); err == nil {
+			fcs = append(fcs, fc)
+			defer fc.Close()
+		}
+	}
+	const count = 12
+	base := 40 + (i%5)*count
+	h.log("-- first use of databases %d..%d: leader client SELECT n; MSET, the client of every follower SELECT n at the same moment", base, base+count-1)
+	for n := base; n < base+count; n++ {
+		db := strconv.Itoa(n)
+		start := make(chan struct{})
+		var wg sync.WaitGroup
+		var lv resp.Value
+		var lerr error
+		wg.Add(1)
+		go func() {
+			defer wg.Done()
+			<-start
+			if v, _, err := lc.Do("SELECT", db); err != nil || v.IsError() {
+				lv, lerr = v, fmt.Errorf("SELECT: %v %s", err, v.String())
+				return
+			}
+			lv, _, lerr = lc.Do("MSET", "fu:a", "v"+db, "fu:b", "w"+db)
+		}()
+		for _, fc := range fcs {
+			wg.Add(1)
+			go func(fc *Client) {
+				defer wg.Done()
+				<-start
+				time.Sleep(300 * time.Microsecond) // about the time the write needs to reach the followers (steering only)
+				fc.Do("SELECT", db)
+			}(fc)
+		}
+		close(start)
+		wg.Wait()
+		if lerr != nil || lv.IsError() {
+			h.log("leader> SELECT %s; MSET -> %v %s", db, lerr, lv.String())
+			if h.leaderMoved() {
+				return false
+			}
+			continue // not acknowledged: nothing to expect
+		}
+		h.sess.st.DB(n)["fu:a"] = &model.Entry{Kind: model.KScalar, S: "v" + db}
+		h.sess.st.DB(n)["fu:b"] = &model.Entry{Kind: model.KScalar, S: "w" + db}
+	}
+	h.ctx.Count("first_use_databases", count)
+	return h.converge("first-use-of-databases")
 }
 
 // leaderSteps runs k lock-step steps through the leader.
@@ -1179,6 +1292,10 @@ func c07History(ctx *Ctx, i int) {
 		if h.bad || !h.converge("race-burst") {
 			return
 		}
+	}
+	// first use of databases nobody has selected yet, from every node at the same moment
+	if !h.firstUse(i) {
+		return
 	}
 	// explicit snapshot request on the leader
 	if restartLane || i%4 == 0 {
